@@ -75,6 +75,16 @@ type c16Group struct { // one unit of work for a worker process
 	Idx      int      `json:"group_index,omitempty"`
 	Of       int      `json:"groups,omitempty"`
 	Self     *c16Self `json:"selfcheck,omitempty"` // boundary self-check item, see inpkg_selfcheck.go
+	Part     *c16Part `json:"part,omitempty"`      // nil: every level with <=2 GPUs; else one slice of a level with >=3 GPUs
+}
+
+// c16Part: levels with three or more GPUs are cut into one work item per
+// (level, library, minimum pattern, num_gpu) so that no single item is long.
+type c16Part struct {
+	Level  int    `json:"level"`
+	Lib    string `json:"library"`
+	MinPat string `json:"min_pat"`
+	NumGPU int    `json:"num_gpu"`
 }
 
 type c16Case struct {
@@ -741,10 +751,32 @@ func (p *c16Plan) groups() []c16Group {
 						}
 						for _, ov := range p.Overheads {
 							g := c16Group{Shape: s, Ctx: ctx, Batch: batch, Parallel: par, ProjFile: pf, Overhead: ov}
+							small := false
 							for li := range p.Levels {
-								if p.Levels[li].applies(&g) {
-									out = append(out, g)
-									break
+								lv := &p.Levels[li]
+								if !lv.applies(&g) {
+									continue
+								}
+								if lv.N <= 2 {
+									small = true
+								}
+							}
+							if small {
+								out = append(out, g)
+							}
+							for li := range p.Levels {
+								lv := &p.Levels[li]
+								if !lv.applies(&g) || lv.N <= 2 {
+									continue
+								}
+								for _, lib := range lv.Libs {
+									for _, mp := range lv.MinPats {
+										for _, ng := range c16NumGPUs(lv.NumGPU, s.Blocks) {
+											gp := g
+											gp.Part = &c16Part{Level: li, Lib: lib, MinPat: mp, NumGPU: ng}
+											out = append(out, gp)
+										}
+									}
 								}
 							}
 						}
@@ -890,8 +922,8 @@ func c16CPUms() int64 {
 
 func c16Group1(g *c16Group, plan *c16Plan, sub *evid.Run, dry bool) {
 	if sub.Expired() {
-		sub.NotExhaustive(fmt.Sprintf("time budget reached: group %+v not run", *g))
-		sub.Add("groups_skipped", 1)
+		sub.NotExhaustive("time budget reached: work item not run: " + c16ItemName(g))
+		sub.Add("work_items_skipped", 1)
 		return
 	}
 	cpu0 := c16CPUms()
@@ -908,16 +940,26 @@ func c16Group1(g *c16Group, plan *c16Plan, sub *evid.Run, dry bool) {
 
 	curLevel := 0
 	seenSlice := map[string]bool{}
-	// samples: the first case and the first non-trivial case with the most GPUs, of about a dozen groups spread over the whole list
-	sampling := g.Of > 0 && g.Idx%max(1, g.Of/12) == 0
+	// samples: from about eight work items spread over the list (plus the very first case of the run): the first
+	// non-trivial case that is not the all-unlimited one
+	sampling := g.Of > 0 && g.Idx%max(1, g.Of/8) == 0
 	sampled := false
-	maxN := 0
+	maxN := 0 // samples are taken from the level with the most GPUs this item runs
 	for li := range plan.Levels {
-		if plan.Levels[li].applies(g) {
-			maxN = max(maxN, plan.Levels[li].N)
+		lv := &plan.Levels[li]
+		if lv.applies(g) && ((g.Part == nil && lv.N <= 2) || (g.Part != nil && g.Part.Level == li)) {
+			maxN = max(maxN, lv.N)
 		}
 	}
+	stop := false
 	one := func(lib string, numGPU int, free, mins []uint64) {
+		if stop {
+			return
+		}
+		if st.evals&8191 == 8191 && sub.Expired() {
+			stop = true
+			return
+		}
 		st.evals++
 		st.byN[len(free)]++
 		st.byLevel[curLevel]++
@@ -963,7 +1005,7 @@ func c16Group1(g *c16Group, plan *c16Plan, sub *evid.Run, dry bool) {
 			h ^= 0x1000000
 		}
 		sub.DistinctH("outcome", h)
-		if sampling && (st.evals == 1 || (!sampled && e.Layers > 0 && len(free) == maxN && free[0] != c16Huge)) {
+		if (g.Idx == 0 && g.Of > 0 && st.evals == 1) || (sampling && !sampled && e.Layers > 0 && len(free) == maxN && free[len(free)-1] != c16Huge && free[0] != c16Huge) {
 			sampled = sampled || e.Layers > 0
 			c := c16Case{c16Group: *g, Library: lib, NumGPU: numGPU, Free: append([]uint64{}, free...), Min: append([]uint64{}, mins...)}
 			sub.Sample(map[string]any{"case": c, "layers": e.Layers, "split": e.TensorSplit, "gpu_sizes": append([]uint64{}, e.GPUSizes...),
@@ -992,9 +1034,15 @@ func c16Group1(g *c16Group, plan *c16Plan, sub *evid.Run, dry bool) {
 		if !lv.applies(g) {
 			continue
 		}
+		if (g.Part == nil && lv.N > 2) || (g.Part != nil && g.Part.Level != li) {
+			continue
+		}
 		curLevel = li
 		n := lv.N
 		for _, lib := range lv.Libs {
+			if g.Part != nil && g.Part.Lib != lib {
+				continue
+			}
 			cp := c16Components(f, g, projectors, base, lib, n)
 			elems := append([]uint64{}, cp.Eff...)
 			if cp.Out > 0 {
@@ -1013,6 +1061,9 @@ func c16Group1(g *c16Group, plan *c16Plan, sub *evid.Run, dry bool) {
 			for _, mp := range lv.MinPats {
 				if mp == "alt" && n == 1 {
 					continue // same as big
+				}
+				if g.Part != nil && g.Part.MinPat != mp {
+					continue
 				}
 				mins := c16Mins(mp, n)
 				sets := make([][]uint64, n)
@@ -1034,28 +1085,38 @@ func c16Group1(g *c16Group, plan *c16Plan, sub *evid.Run, dry bool) {
 				for _, ng := range c16NumGPUs(lv.NumGPU, blocks) {
 					// two levels must never enumerate the same (gpus, library, minimum pattern, num_gpu) slice of a group:
 					// that is what keeps all enumerated tuples pairwise distinct
+					if g.Part != nil && g.Part.NumGPU != ng {
+						continue
+					}
 					slice := fmt.Sprintf("%d|%s|%s|%d", n, lib, mp, ng)
 					if seenSlice[slice] {
 						st.dupSlices++
 						continue
 					}
 					seenSlice[slice] = true
-					if sub.Expired() {
-						sub.NotExhaustive(fmt.Sprintf("time budget reached inside group %+v level gpus=%d", *g, n))
+					free := make([]uint64, n)
+					if !sub.Expired() {
+						if lv.Vector == "pattern" {
+							c16Patterns(sets[0], n, free, func() { one(lib, ng, free, mins) })
+						} else {
+							c16Product(sets, free, func() { one(lib, ng, free, mins) })
+						}
+					}
+					if stop || sub.Expired() {
+						sub.NotExhaustive(fmt.Sprintf("time budget reached inside work item %s (level %d, gpus=%d, %s, %s, num_gpu=%d)", c16ItemName(g), li, n, lib, mp, ng))
 						c16Flush(sub, &st)
 						return
-					}
-					free := make([]uint64, n)
-					if lv.Vector == "pattern" {
-						c16Patterns(sets[0], n, free, func() { one(lib, ng, free, mins) })
-					} else {
-						c16Product(sets, free, func() { one(lib, ng, free, mins) })
 					}
 				}
 			}
 		}
 	}
 	c16Flush(sub, &st)
+}
+
+func c16ItemName(g *c16Group) string {
+	b, _ := json.Marshal(g)
+	return string(b)
 }
 
 func c16Flush(sub *evid.Run, st *c16Stats) {
@@ -1066,7 +1127,7 @@ func c16Flush(sub *evid.Run, st *c16Stats) {
 	sub.Add("cases_all_layers_placed", st.full)
 	sub.Add("cases_a_gpu_filled_to_within_1_byte", st.tight)
 	sub.Add("cases_stopped_by_num_gpu", st.capped)
-	sub.Add("groups", 1)
+	sub.Add("work_items", 1)
 	if st.dupSlices > 0 {
 		sub.Add("overlapping_level_slices_skipped", st.dupSlices)
 	}
@@ -1257,7 +1318,7 @@ func ZZVerifC16() {
 		"up to k_cross layers (0 = admission threshold only, -1 = none). eps: offsets added to each threshold. num_gpu: all = {-1,0,1,B,B+1,999} (thorough: also 2,B-1) | six = the first list | core = {-1,1,B,999}. "+
 		"min_pats: zero | big (2^30+7) | small (5) | alt (big,0,big,...). overheads: null = all listed in bounds.overheads. vector: product = full cartesian product of the per-GPU value sets | "+
 		"pattern = for every ordered pair (a,b) of values: a..a b..b split after 1, n/2, n-1 GPUs and a,b,a,b,...; cpu library always uses k=1 without cross thresholds.")
-	r.Extra("groups_total", len(groups))
+	r.Extra("work_items_total", len(items))
 	r.Extra("constants", map[string]any{"unlimited": c16Huge, "minimum_big": c16MinBig, "minimum_small": c16MinSml,
 		"overhead_small": c16OvSml, "overhead_mid": c16OvMid, "overhead_big": c16OvBig, "block_unit_bytes": c16Unit})
 
